@@ -304,7 +304,7 @@ class WStub:
     def get_fl11_weight(self, q, Q2, nf, ct):
         if Q2 is not self.sy.Q2:
             self.bad_Q2 = True
-        if not (isinstance(q, (int, np.integer)) and 1 <= abs(int(q)) <= 6 and 1 <= int(nf) <= 6):
+        if not (isinstance(q, (int, np.integer)) and 1 <= abs(int(q)) <= 6 and isinstance(nf, (int, np.integer)) and 1 <= int(nf) <= 6):
             raise LookupError(f"precondition of CouplingConstants.get_fl11_weight violated at the call site: pid={q!r}, nf={nf!r}")
         if self.obs_config["process"] == "CC":
             return 0.0
@@ -391,3 +391,56 @@ def cell_configs(sy, c, pos_charge=None, target=None, sv=None, cc_spec=False, ck
 
 
 INTERNAL_ERRORS = (KeyError, IndexError, AttributeError, ModuleNotFoundError, ImportError, TypeError, NameError, ZeroDivisionError, UnboundLocalError)
+
+
+def weights_frame(rep):
+    """Frame condition of the weight collectors: the result is a function of the coupling object
+    passed IN THIS CALL.  Each collector is called with coupling object A, then with a second
+    object B whose contract values are different atoms (w' instead of w) at the same
+    (Q2, nf, parity, mask ...), then with A again, and a fresh result dict is required each time:
+    B's weights must be built from B's atoms only, A's second result must equal its first, and the
+    returned dictionaries must not be aliased (the callers modify them in place, C12)."""
+    from yadism.coefficient_functions import kernels, light, heavy
+    from pvc.core import ob_eval
+
+    sy = Sy()
+    rep.under_contract(light.kernels.nc_weights, light.kernels.nc_fl11_weights, heavy.kernels.nc_weights, kernels.cc_weights, kernels.cc_weights_even, kernels.cc_weights_odd)
+
+    class WStubB(WStub):
+        def get_weight(self, q, Q2, ct, cc_mask=None):
+            return self.sy.U("wB", int(abs(q)), str(ct), str(cc_mask))
+
+        def get_fl11_weight(self, q, Q2, nf, ct):
+            return self.sy.U("wB11", int(abs(q)), int(nf), str(ct))
+
+    calls = []
+    for nf in (3, 5):
+        for is_pv in (False, True):
+            calls.append((f"nc_weights/nf={nf}/pv={is_pv}", "NC", lambda cc, nf=nf, is_pv=is_pv: light.kernels.nc_weights(cc, sy.Q2, nf, is_pv)))
+            calls.append((f"heavy.nc_weights/nf={nf}/pv={is_pv}", "NC", lambda cc, nf=nf, is_pv=is_pv: heavy.kernels.nc_weights(cc, sy.Q2, nf, nf + 1, is_pv)))
+            for fn_ in ("cc_weights", "cc_weights_even", "cc_weights_odd"):
+                calls.append((f"{fn_}/nf={nf}/pv={is_pv}", "CC", lambda cc, nf=nf, is_pv=is_pv, fn_=fn_: getattr(kernels, fn_)(cc, sy.Q2, "dus", nf, is_pv)))
+        calls.append((f"nc_fl11_weights/nf={nf}", "NC", lambda cc, nf=nf: light.kernels.nc_fl11_weights(cc, sy.Q2, nf)))
+
+    def flat(d):
+        return {(ch, p): v for ch, ws in d.items() for p, v in ws.items()}
+
+    for name, proc, f in calls:
+        rep.cases += 1
+        A, B = WStub(sy, proc, 11), WStubB(sy, proc, 11)
+        from pvc.explore import explore
+
+        paths = explore(lambda: (f(A), f(B), f(A)), [sy.Q2 > 0])
+        ok = len(paths) == 1 and paths[0].exc is None
+        detail = ""
+        if ok:
+            a1, b, a2 = paths[0].result
+            fa1, fb, fa2 = flat(a1), flat(b), flat(a2)
+            stale = [k for k, v in fb.items() if "w(" in repr(v) or "w11(" in repr(v)]
+            changed = [k for k in fa1 if k not in fa2 or repr(fa1[k]) != repr(fa2[k])]
+            aliased = [ch for ch in a1 if ch in a2 and a1[ch] is a2[ch]] + [ch for ch in a1 if ch in b and a1[ch] is b[ch]]
+            ok = not stale and not changed and not aliased and set(fa1) == set(fb)
+            detail = f"stale entries in the second object's result: {stale[:4]}; first object's result changed: {changed[:4]}; aliased channel dicts: {aliased}"
+        else:
+            detail = f"paths={len(paths)} exc={[repr(p_.exc) for p_ in paths][:2]}"
+        rep.add(ob_eval(f"{rep.pid}/weights-frame/{name}/result depends on the coupling object of this call only; fresh dictionaries", ok, kind="frame", detail=detail, inputs={} if ok else {"sequence": "f(A), f(B), f(A) with A, B coupling objects of different contract values at the same (Q2, nf, ...)", "observed": detail}))
